@@ -27,6 +27,7 @@ ASSUMPTIONS = [
     "independent NNpsk0 responder (spec-derived, cross-checked against noiseprotocol default backend at setup)",
     "a hello without a device name is accepted whatever the expected name (nothing announced to reject): recorded, not judged",
     "API-level 'no send before readiness' is observed in engine S (C03 part S); engine W checks that the helper writes nothing but hello+handshake",
+    "'the same key' is the 32 bytes: base64 text carrying ASCII white space around or inside it (trailing newline, wrapped line) that the standard decoder reads as those 32 bytes configures the same key (part S, key_spellings); C04's rejection clause is judged only on texts that do NOT decode to 32 bytes",
 ]
 BUDGET_S = {"quick": 240, "thorough": 2400}
 MIN_EVALS = {"quick": 2000, "thorough": 40000}
